@@ -14,7 +14,8 @@ from vf.backends import Undecided, VERIF, BUILD
 from vf.properties import PROPS
 
 UNITS_DIR = os.path.join(VERIF, "units")
-EVID_DIR = os.path.join(VERIF, "evidence")
+# evidence is only ever written to /verif/evidence by runs against /repo itself; runs against a scratch copy (VERIF_REPO) go elsewhere
+EVID_DIR = os.environ.get("VERIF_EVIDENCE_DIR") or (os.path.join(VERIF, "evidence") if os.environ.get("VERIF_REPO", "/repo") == "/repo" else os.path.join(BUILD, "evidence-scratch"))
 REPLAY_DIR = os.path.join(VERIF, "replays")
 KNOWN = os.path.join(VERIF, "known_findings.txt")
 
